@@ -230,6 +230,7 @@ def run(ch: Choices, opts: Dict[str, Any]) -> Dict[str, Any]:
     lost_log: List[Tuple[int, str]] = []
     payload_ctr = [0]
     empty_used = [False]
+    drained: Dict[Tuple[str, str, int], List[Any]] = {}
     done_ctr = [0]
     bsent_ctr = [0]
     sample = {"endpoints": names, "broadcast": sc["broadcast"], "script": sc["script"],
@@ -273,7 +274,9 @@ def run(ch: Choices, opts: Dict[str, Any]) -> Dict[str, Any]:
             m = sock.recv(block=False)
         except RuntimeError:
             return
-        cb_log.setdefault((sock.remote_app_name, sock.app_name, sock.id), []).append((sched.points, m))
+        # a message that was waiting in the queue of a callback endpoint (sent while the endpoint was between two
+        # sockets): for the once / order oracles it stays what it was before the poll took it out -- queued, not delivered
+        drained.setdefault(sock.key, []).append(m)        # (the hub's own key of the receiving socket)
 
     class RecSocket(TSock):
         def recv_callback(self, msg):
@@ -560,6 +563,8 @@ def run(ch: Choices, opts: Dict[str, Any]) -> Dict[str, Any]:
         err = x
     finally:
         leftover = {k: list(v) for k, v in hub._messages.items() if v}
+        for k_d, v_d in drained.items():
+            leftover[k_d] = list(v_d) + leftover.get(k_d, [])
         # sockets that outlive the run (aborted threads, reference cycles) must never reach the process-global hub
         # from a later run: point them at a dummy hub, drop tracebacks, and collect now
         for t in sched.threads:
